@@ -10,6 +10,7 @@ import DosModel.Gen.Ed25519Sc
 import DosModel.Model.Ed25519Ge
 import DosModel.Model.SchnorrHist
 import DosModel.Model.Ed25519ScalarApi
+import DosModel.Gen.Ed25519Pt
 
 open Dos Dos.Ed25519 Dos.Schnorr
 
@@ -163,33 +164,61 @@ def geStep (arg : Nat → String) : String :=
   | "baseext" => showVecs Ge.baseExt.regs
   | _ => "bad ge op"
 
-def showPt (p : Ge.Ext) : String := toHex (Ge.ptMarshal p) ++ " " ++ showVecs p.regs
+/-! pt2: the point API through the TRANSLATED point.go (Gen/Ed25519Pt.lean run by Model/PtProg.lean; proved equal to the hand
+model `Ge.pt*` in Props/C20Point.lean): operands are decoded into fresh objects, the receiver is a fresh point -/
 
+open Dos.PtProg Dos.Gen.Ed25519Pt in
+def ptOut (st : St) (r : Nat) : Ge.Ext := geOf (st.regs.getD r .unset)
+
+open Dos.PtProg Dos.Gen.Ed25519Pt in
+/-- `suite.Point().UnmarshalBinary(b)` with the translated method -/
+def ptUn (b : Bytes) : Option Ge.Ext :=
+  let st := point_UnmarshalBinary.run [0, 1] [Ty.zero .ext, .bytes b]
+  match st.res with
+  | .ok => some (ptOut st 0)
+  | _ => none
+
+open Dos.PtProg Dos.Gen.Ed25519Pt in
+/-- MarshalBinary with the translated method -/
+def ptMar (p : Ge.Ext) : Bytes :=
+  match (point_MarshalBinary.run [0] [.ext p false]).res with
+  | .bytes b => b
+  | _ => []
+
+def showPt (p : Ge.Ext) : String := toHex (ptMar p) ++ " " ++ showVecs p.regs
+
+open Dos.PtProg Dos.Gen.Ed25519Pt in
 def pt2Step (arg : Nat → String) : String :=
-  let un (i : Nat) : Option Ge.Ext := Ge.ptUnmarshal (hex! (arg i))
+  let un (i : Nat) : Option Ge.Ext := ptUn (hex! (arg i))
+  let fresh : Val := Ty.zero .ext
   match arg 1 with
-  | "base" => showPt Ge.ptBase
-  | "null" => showPt Ge.ptNull
-  | "mulbase" => showPt (Ge.ptMul (hex! (arg 2)) none)
+  | "base" => showPt (ptOut (point_Base.run [0] [fresh]) 0)
+  | "null" =>
+    -- the harness calls Null on a point that held the base point
+    showPt (ptOut (point_Null.run [0] [.ext Ge.baseExt false]) 0)
+  | "mulbase" => showPt (ptOut (point_Mul.run [0, 1, 2] [fresh, .bytes (hex! (arg 2)), .nil]) 0)
   | "unmarshal" =>
     match un 2 with
     | none => "err"
     | some p => "ok " ++ showPt p
   | "neg" =>
     match un 2 with
-    | some p => showPt (Ge.ptNeg p)
+    | some p => showPt (ptOut (point_Neg.run [0, 1] [fresh, .ext p false]) 0)
     | none => "operand does not decode"
   | "mul" =>
     match un 3 with
-    | some p => showPt (Ge.ptMul (hex! (arg 2)) (some p))
+    | some p => showPt (ptOut (point_Mul.run [0, 1, 2] [fresh, .bytes (hex! (arg 2)), .ext p false]) 0)
     | none => "operand does not decode"
   | "add" | "sub" | "equal" =>
     match un 2, un 3 with
     | some p, some q =>
       match arg 1 with
-      | "add" => showPt (Ge.ptAdd p q)
-      | "sub" => showPt (Ge.ptSub p q)
-      | _ => toString (Ge.ptEqual p q)
+      | "add" => showPt (ptOut (point_Add.run [0, 1, 2] [fresh, .ext p false, .ext q false]) 0)
+      | "sub" => showPt (ptOut (point_Sub.run [0, 1, 2] [fresh, .ext p false, .ext q false]) 0)
+      | _ =>
+        match (point_Equal.run [0, 1] [.ext p false, .ext q false]).res with
+        | .bool b => toString b
+        | _ => "no result"
     | _, _ => "operand does not decode"
   | _ => "bad pt2 op"
 
@@ -348,17 +377,32 @@ def step (line : String) : String :=
     | _, _ => "operand does not decode"
   | "apx" =>
     match arg 1 with
-    | "setint64" =>
-      let t := arg 2
-      let v : Nat := if t.startsWith "-" then (ell - ((t.drop 1).toString.toNat?.getD 0) % ell) % ell
-                     else (t.toNat?.getD 0) % ell
-      toHex (natLE 32 v)
+    | "setint64" => toHex (Ed25519.Api.setInt64 ((arg 2).toInt?.getD 0))
     | "zero" => toHex (natLE 32 0)
     | "one" => toHex (natLE 32 1)
-    | "pick" => toHex (natLE 32 (nonceOf (hx 2)))
+    | "pick" =>
+      -- the harness' fixed stream: the given 32 bytes, then 00…01 blocks
+      toHex ((Ed25519.Api.pick [hx 2, List.replicate 31 0 ++ [1]]).getD [])
     | "clone" => toHex (scMarshal (hx 2))
     | "equal" => s!"equal={hx 2 == hx 3} self=true"
     | "string" => String.join ((scMarshal (hx 2)).map hexOfByte)
+    | "marshalto" => toHex (Ed25519.Api.marshalTo (hx 2)) ++ " n=32 err=false"
+    | "unmarshalfrom" =>
+      let r := Ed25519.Api.unmarshalFrom (hx 2)
+      match r.2 with
+      | .ok v => s!"ok n={r.1} {toHex (scMarshal v)} left={(hx 2).length - 32}"
+      | .error _ => s!"err n={r.1}"
+    | "ptmarshalto" =>
+      match ptUn (hx 2) with
+      | some p => toHex (ptMar p) ++ " n=32 err=false"
+      | none => "operand does not decode"
+    | "ptunmarshalfrom" =>
+      -- marshalling.PointUnmarshalFrom: io.ReadFull of MarshalSize() bytes, then the translated UnmarshalBinary
+      let x := hx 2
+      if x.length < 32 then s!"err n={x.length}" else
+      match ptUn (x.take 32) with
+      | some p => s!"ok n=32 {toHex (ptMar p)} left={x.length - 32}"
+      | none => "err n=32"
     | _ => "bad apx op"
   | "hist" => histStep (w.drop 2)
   | "fe" => feStep arg
@@ -368,4 +412,24 @@ def step (line : String) : String :=
 
 end C20
 
-def main : IO Unit := Dos.lineLoop C20.step
+/-- `Dos.lineLoop` with the lines of a batch evaluated in parallel tasks (the limb interpreter makes `step` slow: one
+scalar multiplication takes seconds); the output order is the input order, empty lines are skipped as `lineLoop` does -/
+partial def parLoop (f : String → String) : IO Unit := do
+  let stdin ← IO.getStdin
+  let stdout ← IO.getStdout
+  let rec readBatch (n : Nat) (acc : Array String) : IO (Array String × Bool) := do
+    if n = 0 then return (acc, false)
+    let line ← stdin.getLine
+    if line.isEmpty then return (acc, true)
+    let l := (line.trimAsciiEnd).toString
+    if l.isEmpty then readBatch n acc else readBatch (n - 1) (acc.push l)
+  let rec go : IO Unit := do
+    let (batch, eof) ← readBatch 512 #[]
+    let tasks := batch.map (fun l => Task.spawn (fun _ => f l))
+    for t in tasks do
+      stdout.putStrLn t.get
+    stdout.flush
+    if eof then return () else go
+  go
+
+def main : IO Unit := parLoop C20.step
